@@ -198,13 +198,25 @@ Proof.
   rewrite Forall_forall in F. now apply F.
 Qed.
 
+Lemma firstn_incl {A} n : forall (l : list A) x, In x (firstn n l) -> In x l.
+Proof.
+  induction n as [|n IH]; intros [|a l] x; simpl; try tauto.
+  intros [H|H]; [now left | right; now apply IH].
+Qed.
+
+Lemma skipn_incl {A} n : forall (l : list A) x, In x (skipn n l) -> In x l.
+Proof.
+  induction n as [|n IH]; intros [|a l] x; simpl; try tauto.
+  intro H. right. now apply IH.
+Qed.
+
 Lemma tsorted_firstn n : forall l, tsorted l -> tsorted (firstn n l).
 Proof.
   induction n as [|n IH]; intros l S; simpl; [constructor|].
   destruct l as [|a l]; [constructor|].
   pose proof (tsorted_inv _ _ S) as [S' F].
   apply tsorted_cons; [now apply IH|].
-  intros x Hx. apply firstn_In in Hx. rewrite Forall_forall in F. now apply F.
+  intros x Hx. apply firstn_incl in Hx. rewrite Forall_forall in F. now apply F.
 Qed.
 
 (** elements before a cut are above elements after it *)
